@@ -99,7 +99,7 @@ def sub(t):
     t = t.replace("fun c vs g =>", "fun c avs g =>").replace("(fparams d) vs []", "(fparams d) avs []").replace("(cparams cd) vs []", "(cparams cd) avs []")
     for a, b in [("ieval_args", "seval_args"), ("ieval_arms", "seval_arms"), ("ieval_conds", "seval_conds"), ("ieval_each", "seval_each"),
                  ("ieval_incs", "seval_incs"), ("icond_for", "scond_for"), ("icond", "scond"), ("ieval", "seval"), ("iexec", "sexec"),
-                 ("icallf", "scallf"), ("ielif", "selif"), ("ieach", "seach"), ("irun_clause", "srun_clause"), ("icases", "scases"),
+                 ("icallf", "scallf"), ("ielif", "selif"), ("ieach", "seach"), ("irunc", "srunc"), ("icases", "scases"),
                  ("islow", "sslow")]:
         t = re.sub(r"\b%s(_[a-z_0-9]+)?\b" % a, lambda m: b + (m.group(1) or ""), t)
     t = re.sub(r"\brd fn\b", "srd vs fn", t)
